@@ -189,7 +189,7 @@ func (c *client) injectMode(id uint32, fast *time.Timer) bool {
 }
 
 var (
-	nBursts, nTelegrams, nStrictBursts, nInvertedBursts int64
+	nBursts, nTelegrams, nStrictBursts, nInvertedBursts, nReconnectBursts int64
 	perms                                               = map[uint64]bool{}
 	permMu                                              sync.Mutex
 	invByKind                                           = map[string]int64{}
@@ -269,6 +269,90 @@ func burst(c *client, base uint32, n int, behaviour string, maxInFlight int, rng
 		}
 		close(startRead)
 	}
+	select {
+	case <-done:
+	case <-time.After(20 * time.Second):
+		return got, false
+	}
+	return got, len(got) == n
+}
+
+func connResTaken(s *memsock.Sock, from int) bool {
+	for _, e := range s.LogFrom(from) {
+		if e.Kind == memsock.Rx && e.Taken && e.P.Service == spec.SvcConnRes {
+			return true
+		}
+	}
+	return false
+}
+
+// reconnectBurst: n1 telegrams are accepted while the application does not
+// read (or reads slowly), the gateway ends the connection, the client
+// reconnects (new channel, numbering from 0), n2 more telegrams are accepted on
+// the new connection; only then does a stalled application start to read. The
+// order of acceptance spans the reconnect.
+func reconnectBurst(c *client, base uint32, n1, n2 int, behaviour string, rng *rand.Rand) (got []uint32, ok bool) {
+	n := n1 + n2
+	startRead := make(chan struct{})
+	done := make(chan struct{})
+	go func() {
+		defer close(done)
+		if behaviour == "stalled" {
+			<-startRead
+		}
+		rt := time.NewTimer(8 * time.Second)
+		defer rt.Stop()
+		for len(got) < n {
+			id, open, to := c.read(rt.C)
+			if !open || to {
+				return
+			}
+			got = append(got, id)
+			if behaviour == "intermittent" && rng.Intn(2) == 0 {
+				time.Sleep(time.Duration(rng.Intn(300)) * time.Microsecond)
+			}
+		}
+	}()
+	fail := func() ([]uint32, bool) {
+		close(startRead)
+		select {
+		case <-done:
+		case <-time.After(10 * time.Second):
+		}
+		return got, false
+	}
+	for i := 0; i < n1; i++ {
+		if !c.inject(base + uint32(i)) {
+			return fail()
+		}
+	}
+	from := c.s.Len()
+	old := c.ch
+	c.ch += 7
+	c.seq = 0
+	c.s.Deliver(&knxnet.DiscReq{Channel: old})
+	if !c.s.WaitTx(spec.SvcConnReq, from, 1, 5*time.Second) {
+		r.Inconclusive(fmt.Sprintf("[%s] no connect request after a disconnect request", c.kind))
+		return fail()
+	}
+	if c.s.BridgeAddr2() != "" {
+		time.Sleep(3 * time.Millisecond) // over the real socket the hand-over of the connect response cannot be observed
+	} else {
+		dl := time.Now().Add(5 * time.Second)
+		for !connResTaken(c.s, from) && time.Now().Before(dl) {
+			time.Sleep(50 * time.Microsecond)
+		}
+	}
+	atomic.AddInt64(&nReconnectBursts, 1)
+	for i := 0; i < n2; i++ {
+		if !c.inject(base + uint32(n1+i)) {
+			return fail()
+		}
+	}
+	if behaviour == "stalled" {
+		time.Sleep(time.Duration(rng.Intn(300)) * time.Microsecond)
+	}
+	close(startRead)
 	select {
 	case <-done:
 	case <-time.After(20 * time.Second):
@@ -393,6 +477,21 @@ func run(rr *mon.Run) {
 				}
 				one(n, []string{"stalled", "intermittent", "ready"}[i%3], 0, false)
 			}
+			// a reconnect in the middle of a backlog: what was accepted on the old
+			// connection is read before what is accepted on the new one
+			if c.tunnel {
+				for i := 0; i < r.Pick(12, 60) && okAll && !r.Enough(); i++ {
+					n1, n2 := 1+rng.Intn(12), 1+rng.Intn(12)
+					beh := []string{"stalled", "intermittent"}[i%2]
+					sig := fmt.Sprintf("%s reconnect after %d of %d consumer=%s rep=%d base=%d", kind, n1, n1+n2, beh, rep, base)
+					got, ok := reconnectBurst(c, base, n1, n2, beh, rng)
+					judge(c, sig, base, n1+n2, got, ok, false)
+					if !ok {
+						okAll = false
+					}
+					base += uint32(n1+n2) + 10
+				}
+			}
 			// stress: many back-to-back bursts of 64 against a reader that is always
 			// ready or pauses after every few telegrams: the windows in which a hand-over
 			// can overtake a queued telegram are a few instructions wide
@@ -405,6 +504,7 @@ func run(rr *mon.Run) {
 	r.Observe("bursts", nBursts)
 	r.Observe("telegrams", nTelegrams)
 	r.Observe("strict_regime_bursts", nStrictBursts)
+	r.Observe("bursts_spanning_a_reconnect", nReconnectBursts)
 	r.Observe("bursts_with_an_inversion", nInvertedBursts)
 	r.Observe("inverted_bursts_by_client", invByKind)
 	r.Observe("distinct_read_permutations", len(perms))
